@@ -707,6 +707,7 @@ func checkC01(c *Ctx) {
 	laPlain(c, "LA-plain")
 	laOrder(c, "LA-order")
 	laAlias(c, "LA-alias")
+	laMemRead(c, "LA-memread")
 	checkTypeFuncs(c)
 	r.assume("per-shape inversion of shredding by assembly is claimed under C05 (TV-asm/TV-shred), not here")
 }
@@ -844,4 +845,118 @@ func checkC15(c *Ctx) {
 	}
 	r.floor("LA-types/table-entries", 6, "BOOLEAN, INT32, INT64, FLOAT, DOUBLE, BYTE_ARRAY")
 	r.assume("tree reconstruction from num_children (structs.getStruct) is NOT decided")
+}
+
+// laMemRead: the column readers consume the in-memory reader handed back by DoRead either through fill-or-fail calls,
+// or — where they call Read directly and ignore the count (the string value bytes, whose length can be zero) — only
+// on a reader whose concrete type is *bytes.Buffer, which fills the buffer or fails and returns (0, nil) for an empty
+// read even at the end (bytes.Reader and most other readers report io.EOF there: an empty string at the end of a
+// chunk would become an error).
+func laMemRead(c *Ctx, rule string) {
+	r, u := c.R, c.U
+	// concrete types of the reader returned by each DoRead
+	retTypes := map[*ssa.Function][]string{}
+	var concrete func(v ssa.Value, depth int, into map[string]bool)
+	concrete = func(v ssa.Value, depth int, into map[string]bool) {
+		if depth > 6 {
+			into["?"] = true
+			return
+		}
+		switch x := v.(type) {
+		case *ssa.MakeInterface:
+			into[types.TypeString(x.X.Type(), nil)] = true
+		case *ssa.Phi:
+			for _, e := range x.Edges {
+				concrete(e, depth+1, into)
+			}
+		case *ssa.Const:
+			if !x.IsNil() {
+				into["?"] = true
+			}
+		case *ssa.ChangeInterface:
+			concrete(x.X, depth+1, into)
+		default:
+			into["? ("+symExpr(v, 0)+")"] = true
+		}
+	}
+	for _, f := range u.Funcs {
+		if u.pkgPathOf(f) != rtPath || f.Name() != "DoRead" || f.Synthetic != "" {
+			continue
+		}
+		set := map[string]bool{}
+		for _, b := range f.Blocks {
+			if ret, ok := lastInstr(b).(*ssa.Return); ok && len(ret.Results) >= 1 {
+				concrete(ret.Results[0], 0, set)
+			}
+		}
+		var ts []string
+		for t := range set {
+			ts = append(ts, t)
+		}
+		sort.Strings(ts)
+		retTypes[f] = ts
+	}
+	n := 0
+	for _, fi := range fieldImpls(c) {
+		if fi.read == nil {
+			continue
+		}
+		for _, b := range fi.read.Blocks {
+			for _, ins := range b.Instrs {
+				call, ok := ins.(*ssa.Call)
+				if !ok {
+					continue
+				}
+				sc := call.Call.StaticCallee()
+				if sc == nil || retTypes[sc] == nil {
+					continue
+				}
+				var rr ssa.Value
+				for _, ref := range *call.Referrers() {
+					if ex, ok := ref.(*ssa.Extract); ok && ex.Index == 0 {
+						rr = ex
+					}
+				}
+				if rr == nil {
+					continue
+				}
+				n++
+				key := strings.TrimPrefix(fi.pkg, "uni/") + "." + fi.name + ".Read"
+				pos := u.Pos(call.Pos())
+				var bad, und []string
+				raw := 0
+				for _, ref := range *rr.Referrers() {
+					c2, ok := ref.(*ssa.Call)
+					if !ok {
+						continue
+					}
+					name := fullCalleeName(&c2.Call)
+					switch {
+					case c2.Call.IsInvoke() && c2.Call.Method.Name() == "Read":
+						raw++
+						ts := retTypes[sc]
+						if len(ts) != 1 || ts[0] != "*bytes.Buffer" {
+							bad = append(bad, fmt.Sprintf("value bytes are read with a bare Read (count ignored) at %s from a reader that can be %v: only *bytes.Buffer fills the buffer or fails and tolerates an empty read at the end", u.Pos(c2.Pos()), ts))
+						}
+					case name == "encoding/binary.Read" || name == "io.ReadFull" || name == "io/ioutil.ReadAll" || name == "io.ReadAll":
+					case name == rtPath+".GetBools":
+					default:
+						if _, isDbg := ref.(*ssa.DebugRef); !isDbg {
+							und = append(und, "the column reader is handed to "+name)
+						}
+					}
+				}
+				switch {
+				case len(bad) > 0:
+					r.bad(rule, key, pos, strings.Join(bad, "; "))
+				case len(und) > 0:
+					r.undecided(rule, key, pos, strings.Join(und, "; "))
+				default:
+					r.ok(rule, key, pos, fmt.Sprintf("consumed by fill-or-fail calls; %d bare Read(s) on a %v", raw, retTypes[sc]))
+				}
+			}
+		}
+	}
+	r.count(rule+"/column-readers", n)
+	r.floor(rule+"/column-readers", 16, "16 column types in alltypes")
 }
